@@ -4,16 +4,17 @@ import Jasm.Proofs.Master
 # C19 Every `@macro` reference is expanded or reported, never silently kept
 
 Stated on the model of `MacroExpander.resolve_all_macros` and `Yaml2Regex._get_pattern`
-(`Jasm/Model/Macro.lean`, `Jasm/Model/Pipeline.lean`).  A reference is a string - list item, operand,
-dictionary value or dictionary *key* - that starts with `@`.
+(`Jasm/Model/Macro.lean`, `Jasm/Model/Pipeline.lean`).  A reference is an `@name` anywhere in a string -
+list item, operand, dictionary value or dictionary *key* - at its start or inside a longer name
+(`%@reg`; repaired defect D16: embedded undefined references used to be kept silently).
 -/
 namespace Jasm.C19
 open Jasm
 
 mutual
-/-- no string leaf, dictionary key or dictionary value of the tree starts with `@` -/
+/-- no string leaf, dictionary key or dictionary value of the tree contains an `@` -/
 def noAt : Y → Bool
-  | .str s => !isMacroName s
+  | .str s => !(s.contains '@')
   | .list l => noAtL l
   | .dict d => noAtD d
   | _ => true
@@ -100,8 +101,13 @@ theorem C19_named (macros : List Y) (tree : Y) (ms : List Macro)
 example : resolveAllMacros [.dict [(.str "name".toList, .str "@m".toList), (.str "pattern".toList, .str "x".toList)]]
     (.dict [(.str "$and".toList, .list [.dict [(.str "@nope".toList, .list [.str "rax".toList])]])])
     = fail "The following macros are not defined" := by rfl
+/-- regression for the repaired defect D16: an undefined reference inside a longer name is reported,
+a defined one is expanded -/
 example : resolveAllMacros [.dict [(.str "name".toList, .str "@m".toList), (.str "pattern".toList, .str "x".toList)]]
     (.dict [(.str "$and".toList, .list [.str "@m".toList, .str "a@b".toList])])
-    = .ok (.dict [(.str "$and".toList, .list [.str "x".toList, .str "a@b".toList])]) := by rfl
+    = fail "The following macros are not defined" := by rfl
+example : resolveAllMacros [.dict [(.str "name".toList, .str "@m".toList), (.str "pattern".toList, .str "x".toList)]]
+    (.dict [(.str "$and".toList, .list [.str "@m".toList, .str "a@m".toList])])
+    = .ok (.dict [(.str "$and".toList, .list [.str "x".toList, .str "ax".toList])]) := by rfl
 
 end Jasm.C19
